@@ -15,6 +15,7 @@
 //
 //	walk view = sorted items hexpath:kind:mode:size:content joined by ','  ('-' when empty)
 //	look view = one item kind:mode:size:content (or '-') per probe, joined by ','
+//	mt        = per view, the regular files of the walk with ModTime - 1.6e9 s (the generator stamps a file with (cid mod 26)*1000 + size)
 //	content   = '-' (dir), 'e' (empty file), c<cid>n<len> (uniform body), m<len> (mixed), hex target (symlink)
 package main
 
@@ -33,6 +34,7 @@ import (
 	"strconv"
 	"strings"
 	"sync"
+	"time"
 
 	v1 "github.com/google/go-containerregistry/pkg/v1"
 	"github.com/google/go-containerregistry/pkg/v1/empty"
@@ -104,7 +106,11 @@ func (c tcase) line() string {
 		}
 		ls[i] = hx.Join(es, ";")
 	}
-	sb.WriteString(strings.Join(ls, "|"))
+	if len(ls) == 0 {
+		sb.WriteString("~") // an image without any archive
+	} else {
+		sb.WriteString(strings.Join(ls, "|"))
+	}
 	return sb.String()
 }
 
@@ -143,6 +149,9 @@ func parseCase(l string) tcase {
 		}
 	}
 	for _, ls := range strings.Split(t[5], "|") {
+		if t[5] == "~" {
+			break
+		}
 		var es []ent
 		if ls != "-" && ls != "" {
 			for _, s := range strings.Split(ls, ";") {
@@ -177,6 +186,7 @@ func mkLayer(es []ent) (v1.Layer, error) {
 		case 'f':
 			h.Typeflag = tar.TypeReg
 			h.Size = int64(e.size)
+			h.ModTime = mtimeOf(e.cid, e.size)
 		case 's':
 			h.Typeflag = tar.TypeSymlink
 		case 'h':
@@ -250,15 +260,77 @@ func kindOf(m fs.FileMode) string {
 	}
 }
 
+// mtimeOf: the modification time the generator gives a regular file with this body (so that a view that shows the content of one
+// entry with the metadata of another is noticed through ModTime as well)
+func mtimeOf(cid, size int) time.Time {
+	return time.Unix(1_600_000_000+int64(cid%26)*1000+int64(size), 0)
+}
+
+// readAll reads the file through the public API and cross-checks the rest of that API on the way: ReadAt and Seek of the opened
+// file against the bytes Read delivered, Stat of the opened file against Stat of the path, a second
+// Close, Sys.  Any disagreement replaces the content by an INCONSISTENT-… marker (which no model reply contains).
 func readAll(fsys scalibrfs.FS, p string) string {
 	f, err := fsys.Open(p)
 	if err != nil {
 		return "openerr"
 	}
-	defer f.Close()
 	b, err := io.ReadAll(f)
 	if err != nil {
+		f.Close()
 		return "readerr"
+	}
+	if ra, ok := f.(io.ReaderAt); ok && len(b) > 0 {
+		buf := make([]byte, len(b)-len(b)/2)
+		n, e := ra.ReadAt(buf, int64(len(b)/2))
+		if (e != nil && e != io.EOF) || n != len(buf) || !bytes.Equal(buf, b[len(b)/2:]) {
+			f.Close()
+			return "INCONSISTENT-readat"
+		}
+	}
+	if sk, ok := f.(io.Seeker); ok {
+		if pos, e := sk.Seek(0, io.SeekStart); e != nil || pos != 0 {
+			f.Close()
+			return "INCONSISTENT-seek"
+		}
+		again, e := io.ReadAll(f)
+		if e != nil || !bytes.Equal(again, b) {
+			f.Close()
+			return "INCONSISTENT-reread"
+		}
+	}
+	st, e1 := f.Stat()
+	ps, e2 := fsys.Stat(p)
+	if e1 != nil || e2 != nil || st.Size() != ps.Size() || st.Mode() != ps.Mode() || !st.ModTime().Equal(ps.ModTime()) || st.Sys() != nil {
+		f.Close()
+		return "INCONSISTENT-filestat"
+	}
+	if f.Close() != nil {
+		return "INCONSISTENT-close"
+	}
+	_ = f.Close() // a second Close must not panic
+	// fresh handles whose FIRST operation is ReadAt / Seek (the file is opened lazily by whichever comes first)
+	if g, e := fsys.Open(p); e == nil {
+		if ra, ok := g.(io.ReaderAt); ok && len(b) > 0 {
+			one := make([]byte, 1)
+			if n, e := ra.ReadAt(one, int64(len(b)-1)); n != 1 || (e != nil && e != io.EOF) || one[0] != b[len(b)-1] {
+				g.Close()
+				return "INCONSISTENT-readat-first"
+			}
+		}
+		g.Close()
+	}
+	if g, e := fsys.Open(p); e == nil {
+		if sk, ok := g.(io.Seeker); ok && len(b) > 0 {
+			if pos, e := sk.Seek(-1, io.SeekEnd); e != nil || pos != int64(len(b)-1) {
+				g.Close()
+				return "INCONSISTENT-seek-first"
+			}
+			if rest, e := io.ReadAll(g); e != nil || len(rest) != 1 || rest[0] != b[len(b)-1] {
+				g.Close()
+				return "INCONSISTENT-seek-first-read"
+			}
+		}
+		g.Close()
 	}
 	return content(b)
 }
@@ -281,9 +353,16 @@ func lookup(fsys scalibrfs.FS, p string) string {
 	found, wh, mode, size, tgt := image.VerifNodeC04(fsys, p)
 	st, err := fsys.Stat(p)
 	if !found || wh {
-		// getFileNode finds nothing (or a whiteout): Stat must fail too
+		// getFileNode finds nothing (or a whiteout): Stat, Open and ReadDir must fail too
 		if err == nil {
 			return "INCONSISTENT-stat-ok"
+		}
+		if f, e := fsys.Open(p); e == nil {
+			f.Close()
+			return "INCONSISTENT-open-ok"
+		}
+		if _, e := fsys.ReadDir(p); e == nil {
+			return "INCONSISTENT-readdir-ok"
 		}
 		return "-"
 	}
@@ -296,6 +375,10 @@ func lookup(fsys scalibrfs.FS, p string) string {
 	}
 	if st.Mode() != mode || st.Size() != size {
 		return "INCONSISTENT-stat-fields"
+	}
+	// ReadDir of a directory succeeds; of a file it may fail or (as the code does: no error, fs.ReadDirFS would want one) list nothing
+	if es, e := fsys.ReadDir(p); (st.IsDir() && e != nil) || (!st.IsDir() && e == nil && len(es) > 0) {
+		return "INCONSISTENT-readdir"
 	}
 	return item(fsys, p, st.Mode(), st.Size())
 }
@@ -346,10 +429,27 @@ func run(c tcase) string {
 		if err != nil {
 			return "err=1"
 		}
-		var walks, looks []string
-		for _, cl := range cls {
+		var walks, looks, mtimes []string
+		acc := 1
+		if im.Size() < 0 {
+			acc = 0
+		}
+		for k, cl := range cls {
+			// the accessors of a chain layer: its index, and its layer's build command (the history entry it was made from)
+			if cl.Index() != k || cl.Layer() == nil || (validHist(c) && cl.Layer().Command() != fmt.Sprintf("cmd-%d", k)) {
+				acc = 0
+			}
+			if cl.Layer() != nil {
+				_ = cl.Layer().DiffID()
+				if cl.Layer().IsEmpty() != (validHist(c) && c.hist[k] == 'E') {
+					acc = 0
+				}
+				if lf := cl.Layer().FS(); lf != nil {
+					_, _ = lf.ReadDir(".")
+				}
+			}
 			fsys := cl.FS()
-			var items []string
+			var items, mts []string
 			count := 0
 			_ = fs.WalkDir(fsys, ".", func(p string, d fs.DirEntry, err error) error {
 				count++
@@ -373,8 +473,13 @@ func run(c tcase) string {
 					return nil
 				}
 				items = append(items, hx.Hex(p)+":"+item(fsys, p, info.Mode(), info.Size()))
+				if info.Mode().IsRegular() {
+					mts = append(mts, fmt.Sprintf("%s:%d", hx.Hex(p), info.ModTime().Unix()-1_600_000_000))
+				}
 				return nil
 			})
+			sort.Strings(mts)
+			mtimes = append(mtimes, hx.Join(mts, ","))
 			sort.Strings(items)
 			walks = append(walks, hx.Join(items, ","))
 			var ls []string
@@ -392,22 +497,32 @@ func run(c tcase) string {
 			}
 			return nil
 		})
-		return fmt.Sprintf("err=0 nv=%d walk=%s look=%s maxdisk=%d squash=%s", len(cls), strings.Join(walks, "|"), strings.Join(looks, "|"), maxdisk, squash(c, img))
+		return fmt.Sprintf("err=0 nv=%d walk=%s look=%s maxdisk=%d squash=%s acc=%d mt=%s", len(cls), strings.Join(walks, "|"), strings.Join(looks, "|"), maxdisk, squash(c, img), acc, strings.Join(mtimes, "|"))
 	})
 }
+
+// validHist: the history lists exactly the archives (no X entry): chain layers correspond to history entries
+func validHist(c tcase) bool { return !strings.Contains(c.hist, "X") }
 
 // squash unpacks the same image with artifact/image/unpack (UnpackSquashed, default config) and lists the regular files
 // it left on disk with their content: the property says they are the regular files of the final view.
 func squash(c tcase, img v1.Image) string {
-	if c.req != "A" || c.limit < 1<<20 {
-		return "na"
-	}
 	dir, err := os.MkdirTemp("", "squash-*")
 	if err != nil {
 		return "na"
 	}
 	defer os.RemoveAll(dir)
-	u, err := unpack.NewUnpacker(unpack.DefaultUnpackerConfig())
+	// the unpacker under the configuration of the load: the same requirer, MaxFileBytes = the load's limit (the unpacker skips
+	// files LARGER than it, the loader files at or above it), MaxPass 1..3 from the case (without links one pass does it all)
+	ucfg := unpack.DefaultUnpackerConfig().WithMaxFileBytes(c.limit).WithMaxPass(1 + len(c.layers)%3)
+	switch c.req {
+	case "A":
+	case "N":
+		ucfg = ucfg.WithRequirer(&require.FileRequirerNone{})
+	default:
+		ucfg = ucfg.WithRequirer(require.NewFileRequirerPaths(c.reqSet))
+	}
+	u, err := unpack.NewUnpacker(ucfg)
 	if err != nil {
 		return "na"
 	}
@@ -474,6 +589,9 @@ func spell(r *rand.Rand, p string, dir bool) string {
 	}
 	if dir && r.Intn(3) != 0 {
 		s += "/"
+	}
+	if dir && r.Intn(60) == 0 {
+		s = []string{"/", "//", ".", "./", "/."}[r.Intn(5)] // the root itself, which the loader skips
 	}
 	return s
 }
@@ -809,6 +927,9 @@ func randCase(r *rand.Rand) tcase {
 		}
 	}
 	nl := 1 + r.Intn(5)
+	if r.Intn(60) == 0 {
+		nl = 0 // an image without archives: no history at all, or only empty-layer entries
+	}
 	mode := r.Intn(100)
 	if m := os.Getenv("C04_MODE"); m != "" { // development aid: force one stream
 		mode, _ = strconv.Atoi(m)
@@ -862,7 +983,7 @@ func randCase(r *rand.Rand) tcase {
 			hb.WriteByte('L')
 		}
 	}
-	if hm >= 60 && hm < 92 && r.Intn(3) == 0 {
+	if (hm >= 60 && hm < 92 && r.Intn(3) == 0) || (nl == 0 && hm < 50) {
 		hb.WriteByte('E')
 	}
 	c.hist = hb.String()
